@@ -66,6 +66,19 @@ func withPoolPricedElys(base func(*rapid.T) WorldSpec) func(*rapid.T) WorldSpec 
 	}
 }
 
+// withModestUser: in half of the worlds the last user is no whale: its portfolio sits in the Basic, Bronze, Silver or
+// Gold membership tier, so its swaps, joins and perpetual trades run with that tier's fee discount.
+func withModestUser(base func(*rapid.T) WorldSpec) func(*rapid.T) WorldSpec {
+	return func(t *rapid.T) WorldSpec {
+		spec := base(t)
+		if UniformDraw(t, "modestuser", 2) == 1 {
+			spec.Scenario.ModestUser = true
+			spec.Scenario.ModestUSDC = []string{"5000000000", "30000000000", "100000000000", "300000000000"}[UniformDraw(t, "modestusdc", 4)]
+		}
+		return spec
+	}
+}
+
 // withBurner: in half of the worlds the burner module is live (its epoch is one the chain really runs) and two or three of the
 // funded denoms have bank metadata, so that what users send to the zero address is really burnt.
 func withBurner(base func(*rapid.T) WorldSpec) func(*rapid.T) WorldSpec {
@@ -221,7 +234,7 @@ var ProfileC05 = &Profile{
 // directions and forms), few price moves, almost no perpetual exposure
 var ProfileC03 = &Profile{
 	MultiMsg: true,
-	ID:       "C03", Name: "swap-value", MinBlocks: 6, MaxBlocks: 40, MaxTxs: 6, Spec: withSkew(specDefault), Check: CheckC03Chain,
+	ID:       "C03", Name: "swap-value", MinBlocks: 6, MaxBlocks: 40, MaxTxs: 6, Spec: withModestUser(withSkew(specDefault)), Check: CheckC03Chain,
 	Weights: map[string]int{"amm.swap_in": 14, "amm.swap_out": 14, "amm.swap_in_2hop": 4, "amm.swap_out_2hop": 4, "amm.swap_by_denom": 3, "amm.join": 4, "amm.exit": 4,
 		"oracle.feed_price": 2, "perpetual.open": 1, "perpetual.close": 2, "leveragelp.open": 1, "bank.send_to_pool": 1, "amm.feed_external_liquidity": 3, "tier.set_portfolio": 3},
 	Rule: "history with >=3 judged pool-blocks (only swaps/joins/exits, unchanged prices, no perpetual exposure) and >=1 block with >=2 successful swaps",
